@@ -129,7 +129,7 @@ def gen_history(rng, wf):
         elif r < 0.77:
             ops.append([T_CURSOR, rng.randint(0, 1)])
         elif r < 0.85:
-            if depth == 0 or rng.random() < 0.06:
+            if depth == 0:      # captures are not nested: known finding C15-nested-capture (corpus/C15_known)
                 ops.append([T_BEGIN, rng.randint(0, 1)])
                 depth += 1
             elif depth > 0:
@@ -351,26 +351,39 @@ def impl(op, arg):
 
 # ---------------------------------------------------------------- checks on the implementation's output
 def _blocks(filled):
-    """top-level capture blocks (begin index, end index, nested?)"""
+    """innermost capture blocks at any depth (begin index, end index): blocks containing no other capture call.
+    A block that contains another capture is not claimed (which capture owns the inner output is a matter
+    of reading); an innermost block must return exactly what was printed inside it -- for a block opened
+    inside another capture this is the known finding C15-nested-capture (corpus/C15_known)."""
     out = []
-    depth = 0
-    start = None
-    nested = False
+    stack = []
     for i, op in enumerate(filled):
         if op[0] == T_BEGIN:
-            if depth == 0:
-                start, nested = i, False
-            else:
-                nested = True
-            depth += 1
+            if stack:
+                stack[-1][1] = True
+            stack.append([i, False])
         elif op[0] == T_END:
-            depth -= 1
-            if depth == 0 and start is not None:
-                out.append((start, i, nested))
-                start = None
-            if depth < 0:
+            if not stack:
                 return out      # unbalanced from here on: no block claims
+            start, has_inner = stack.pop()
+            if not has_inner:
+                out.append((start, i))
     return out
+
+
+def is_nested_capture(op, arg):
+    """matcher for known_findings.json: the history opens a capture while another one is open"""
+    if op != "hist":
+        return False
+    depth = 0
+    for o in arg[1]:
+        if o[0] == T_BEGIN:
+            if depth > 0:
+                return True
+            depth += 1
+        elif o[0] == T_END:
+            depth = max(0, depth - 1)
+    return False
 
 
 def spec_cases(op, arg, out):
@@ -384,9 +397,7 @@ def spec_cases(op, arg, out):
     for f, o in zip(filled, obs):
         if f[0] in (T_XTEXT, T_XHTML):
             cases.append(("spec.clear_ok", [f[1], o[2][0], o[2][1]]))
-    for b, e, nested in _blocks(filled):
-        if nested:
-            continue        # nested captures: the inner end_capture takes the outer block's output (noted finding)
+    for b, e in _blocks(filled):
         would_be = [c for i in range(b, e + 1) for c in twin[i]]
         delta = [c for i in range(b, e + 1) for c in obs[i][0]]
         cases.append(("spec.capture_ok", [obs[e][1][0] if obs[e][1] else [-1], would_be, delta]))
